@@ -10,7 +10,7 @@ while read -r seed ids; do
   git -C "$REPO" apply "$PWD/seeded/$seed/patch.diff"
   for id in $ids; do
     t0=$(date +%s); out=$(./check $id quick 2>&1); rc=$?; t1=$(date +%s)
-    echo "MATRIX $seed $id exit=$rc $((t1-t0))s $(echo "$out" | grep -E '^(FAILURE|HARNESS|WATCHDOG)' | head -1 | cut -c1-200)"
+    echo "MATRIX $seed $id exit=$rc $((t1-t0))s cases=$(echo "$out" | grep -oE "quick: [0-9]+ cases" | grep -oE "[0-9]+" | tail -1) $(echo "$out" | grep -E '^(FAILURE|HARNESS|WATCHDOG)' | head -1 | cut -c1-200)"
   done
   git -C "$REPO" checkout -- .
 done < "$1"
